@@ -150,7 +150,15 @@ def stepCore (c : Core) (args : List String) : Core × String × List Core :=
     else
       -- the catch-up is one chain move per block (the spec side follows through `Led.step notify`)
       let (cl, okm, acc) := mids (c0.led.node.tipHeight + 1) c0 [c0]
-      let c' := { cl with P := r.P, V := { r.V with tasks := [] }, commits := c0.commits + r.commits }
+      -- SPEC of a restart: afterwards the wallet follows the node's chain — also when the block it was
+      -- synced to has left that chain at the same or a lower height (no block above it to catch up with)
+      let l := cl.led
+      let same := l.specChain.length == l.node.chain.length &&
+        (l.specChain.zip l.node.chain).all (fun p => p.1.id == p.2.id)
+      let l' := if same then l else
+        { l with specPend := Spec.Pending.onChainMoved (Led.specEnv cl.view) l.specChain l.node.chain l.specPend,
+                 specChain := l.node.chain }
+      let c' := { cl with P := r.P, V := { r.V with tasks := [] }, commits := c0.commits + r.commits, led := l' }
       -- spec: the wallet opens and its unfinished work is queued again
       (c', (if r.ok && okm then "ok" else "err") ++ "\tok", acc)
   | ["commits"] => (c, toString c.commits, [])
@@ -193,21 +201,30 @@ def pendingObs (a : List String) : Bool :=
 def replay (st : St) (i : Nat) (c : Core) (quiet : Bool) : Option String :=
   let (c1, bootOut, _) := stepCore c ["boot"]
   if modelCol bootOut != "ok" then some s!"op={i} boot-failed" else
-  let rec go (fuel : Nat) (j : Nat) (cur : Core) : Option String :=
+  -- the notification queue is volatile: blocks the node announced before the crash (`submit` at an
+  -- op < i) are not announced again; Start's catch-up is how the restarted wallet learns about them
+  let announced0 : List String := ((st.hist.toList.take i).zip (st.outs.toList.take i)).filterMap (fun p =>
+    match p.1 with
+    | ["submit", b] => if modelCol p.2 == "ok" then some b else none
+    | _ => none)
+  let rec go (fuel : Nat) (j : Nat) (cur : Core) (announced : List String) : Option String :=
     match fuel with
     | 0 => none
     | fuel + 1 =>
       if j ≥ st.hist.size then none else
       let a := st.hist[j]!
+      let announced := match a with | ["submit", b] => announced.filter (· != b) | _ => announced
+      let lost := match a with | ["notify", b] => announced.contains b | ["rec", "notify", b] => announced.contains b | _ => false
+      if lost then go fuel (j + 1) cur announced else
       let (nx, out, _) := stepCore cur a
       let cols := out.splitOn "\t"
       if isObservation a && cols.length == 2 && cols[0]! != cols[1]! then
         some s!"op={i} at={j}:{"_".intercalate a} crashed-run model={cols[0]!} spec={cols[1]!}"
-      else if !quiet && pendingObs a then go fuel (j + 1) nx
+      else if !quiet && pendingObs a then go fuel (j + 1) nx announced
       else if st.cmp[j]! && out != st.outs[j]! then
         some s!"op={i} at={j}:{"_".intercalate a} twin={st.outs[j]!} crash={out}"
-      else go fuel (j + 1) nx
-  go (st.hist.size + 1) i c1
+      else go fuel (j + 1) nx announced
+  go (st.hist.size + 1) i c1 announced0
 
 def step (st : St) (args : List String) : St × String :=
   match args with
